@@ -85,7 +85,7 @@ def fold_int(a: int, b: int, op: int, a_bool: bool, b_bool: bool) -> bool:
     pre: 0 <= a < 1000000 and 0 <= b < 1000000
     pre: op not in (5, 6) or b <= 8
     pre: op != 11 or b <= 3
-    pre: op not in (7, 8, 9) or (a < 32 and b < 32)
+    pre: op not in (7, 8, 9) or (a < 16 and b < 16)
     post: _
     """
     # BinOp(Constant(a), op, Constant(b)) with symbolic non-negative ints (or the booleans a != 0 / b != 0): whenever
